@@ -63,7 +63,7 @@ FINDINGS += [
  F('C12', 'C12 EdDSA PrivateKey.SetBytes panics on a longer buffer', '5f799b3', 'EdDSA PrivateKey.SetBytes panicked on a buffer with trailing bytes', "", ""),
  F('C12', 'C12 EdDSA PrivateKey.SetBytes consumed length', '8ea03ab', 'EdDSA PrivateKey.SetBytes reported 3*sizeFr consumed instead of 2*sizeFr+32', "", ""),
  F('C12', 'C12 secp256k1 ECDSA PublicKey.SetBytes consumed length', '010409c', 'secp256k1 ECDSA PublicKey.SetBytes reported 32 bytes consumed for a 64-byte encoding', "", ""),
- K("C12", "C12 ECDSA accepts the point at infinity as a public key", "ECDSA PublicKey.SetBytes accepts the encoding of the point at infinity and Verify performs no key validation: with Q = O a forged (r = x([t]G) mod n, s = e/t) verifies for any message (10 curves)", r"^C12 ECVINF ", r"^1$", r"^err:pkinfinity", "ecc/*/ecdsa/ecdsa.go Verify, marshal.go", ""),
+ F("C12", "C12 ECDSA accepts the point at infinity as a public key", "bef084c", "ECDSA PublicKey.SetBytes accepted the encoding of the point at infinity and Verify performed no key validation: with Q = O a forged (r = x([t]G) mod n, s = e/t) verified for any message (10 curves)", "C12 ECVINF bn254 sha256 0 0 <r||s> <msg> ~ ~", "ecc/*/ecdsa/ecdsa.go Verify, marshal.go"),
  K("C12", "C12 bw6-633 ECDSA key outside the r-torsion", "bw6-633 IsInSubGroup accepts the order-3 points (0,±2) (see C07): ECDSA public keys outside the r-torsion are accepted", r"^C12 ECPKT bw6_633 ", r".", r"^err:subgroup", "ecc/bw6-633/g1.go:483", ""),
  # ---- C13
  K("C13", "C13 bw6-761 MapToG1 off-curve at Z*u^2 = -1", "bw6-761 MapToG1 returns a point that is not on the curve for the two u with Z·u² = −1 (the SSWU constant Z = 2 violates find_z_sswu criterion 4)", r"^C13 map bw6-761 g1 ", r"^1 0 0 1", r"^1 X X 1", "ecc/bw6-761/hash_to_curve/g1.go:21, hash_to_g1.go:99-129", ""),
